@@ -362,6 +362,17 @@ func runCrash(p *Plan, tree *refTree, res *simcore.Result) {
 			rb := &rebooter{p: p, tree: tree, h: h, res: res, engine: engine, cut: c, draw: d, lost: lost}
 			v := rb.run(model, img, mem)
 			fp = fp.U64(c).U64(uint64(d)).U64(rb.headNum)
+			if v != nil && d > 0 {
+				if mp := tornMeta(model, img); mp != "" {
+					// the power-loss image holds a freezer table .meta file that is neither of the
+					// contents whole writes can leave (torn / zero-filled extension of the rewrite):
+					// the recorded C24 cause, whatever it leads to (undecodable metadata, or metadata
+					// that decodes to a garbage flushOffset / virtual tail)
+					res.Probe("torn-meta-image-violation")
+					v.Msg = fmt.Sprintf("torn freezer metadata file %s in the image; symptom [%s / %s]: %s", mp[len(h.root):], v.Oracle, v.Key, v.Msg)
+					v.Key = "reboot-failed:power-loss:torn-freezer-metadata"
+				}
+			}
 			if v != nil {
 				if traceOn {
 					dumpAround(h, c)
@@ -905,4 +916,30 @@ func (rb *rebooter) lastUnitIsReorgDeletion(head uint64) bool {
 		}
 	}
 	return hit
+}
+
+// tornMeta returns the path of a freezer table metadata file (chain freezer or state
+// freezers) whose content in the image is none of the contents the file can have when each
+// unsynced mutation is applied completely or not at all ("" if there is none).
+func tornMeta(model *simdisk.FSModel, img map[string][]byte) string {
+	paths := make([]string, 0, len(img))
+	for p := range img {
+		if strings.HasSuffix(p, ".meta") {
+			paths = append(paths, p)
+		}
+	}
+	sort.Strings(paths)
+	for _, p := range paths {
+		whole := false
+		for _, st := range model.WholeWriteStates(p) {
+			if bytes.Equal(st, img[p]) {
+				whole = true
+				break
+			}
+		}
+		if !whole {
+			return p
+		}
+	}
+	return ""
 }
